@@ -3,7 +3,7 @@
    (offer / send / fire / release / drop) one at a time with a quiescence barrier (1 ms of virtual time)
    after each, so everything the server can do in response has happened before the next step. *)
 EXTENDS Naturals, Sequences, FiniteSets, TLC, TraceKit
-Fresh(stim) == [stim |-> stim, sentEarly |-> {}, fired |-> FALSE, offeredAfterFire |-> {}, offered |-> {}, taken |-> {}, accepted |-> {}, handlerDone |-> {},
+Fresh(stim) == [stim |-> stim, sentEarly |-> {}, sentWaiting |-> {}, aged |-> FALSE, fired |-> FALSE, offeredAfterFire |-> {}, offered |-> {}, taken |-> {}, accepted |-> {}, handlerDone |-> {},
                 done |-> {}, dropped |-> {}, resolved |-> FALSE, epilogue |-> FALSE, final |-> FALSE, incomingEnded |-> FALSE,
                 hopen |-> {}, hseen |-> 0, observed |-> FALSE, settled |-> FALSE]
 Keys == {"runs", "same_tick_steps", "aged_runs", "incoming_ended_runs", "fired_runs", "signal_with_calls_in_flight", "late_offers", "streaming_calls", "client_drops", "resolved_runs", "calls_completed"}
@@ -24,6 +24,11 @@ Step == /\ Live("step")
                                  \* a request written (the step ends with a barrier) before the signal, on a connection whose server half has not
                                  \* reached the accept loop yet: it is waiting in the pipe when the server accepts the connection
                                  [] E.op = "send" /\ ~(Has(E, "nb") /\ E.nb) /\ ~s.fired /\ ~s.incomingEnded /\ CallRec(s.stim, E.k).c \notin s.offered -> [s EXCEPT !.sentEarly = @ \cup {E.k}]
+                                 \* (servers with a per-connection concurrency limit) a request written, with a barrier, before the signal on a connection
+                                 \* the server has accepted and not aged out: it has reached the server, whether or not it has been given a permit yet
+                                 [] E.op = "send" /\ ~(Has(E, "nb") /\ E.nb) /\ ~s.fired /\ ~s.incomingEnded /\ ~s.aged /\ Has(s.stim, "limit") /\ CallRec(s.stim, E.k).c \in s.taken
+                                      -> [s EXCEPT !.sentWaiting = @ \cup {E.k}]
+                                 [] E.op = "age" -> [s EXCEPT !.aged = TRUE]
                                  [] E.op = "drop" -> [s EXCEPT !.dropped = @ \cup {E.c}]
                                  [] OTHER -> s))
         /\ Count((IF E.op = "fire" THEN {"fired_runs"} ELSE {}) \cup (IF E.op = "fire" /\ (s.accepted \ s.handlerDone) # {} THEN {"signal_with_calls_in_flight"} ELSE {})
@@ -39,7 +44,9 @@ CallDone == /\ Live("call_done")
                JudgeK(<< <<"C13.AcceptedCallGetsFullTrueOutcome", (E.k \in s.accepted /\ conn \notin s.dropped) => (E.ok /\ E.msgs = Expected(s.stim, E.k))>>,
                          <<"C13.OutcomeIsTrue", E.ok => (E.k \in s.accepted /\ E.msgs = Expected(s.stim, E.k))>>,
                          \* a request that was already waiting on a connection the server went on to accept before the signal is served too
-                         <<"C13.RequestWaitingOnAcceptedConnectionIsServed", (E.k \in s.sentEarly /\ conn \in s.taken /\ conn \notin s.dropped) => E.ok>> >>,
+                         <<"C13.RequestWaitingOnAcceptedConnectionIsServed", (E.k \in s.sentEarly /\ conn \in s.taken /\ conn \notin s.dropped) => E.ok>>,
+                         \* ... and so is a request that was waiting for a permit of the connection's concurrency limit when the signal fired
+                         <<"C13.RequestWaitingForAPermitIsServed", (E.k \in s.sentWaiting /\ conn \notin s.dropped /\ ~Has(s.stim, "timeout_ms")) => (E.ok /\ E.msgs = Expected(s.stim, E.k))>> >>,
                       [s EXCEPT !.done = @ \cup {E.k}])
             /\ Count(IF E.ok THEN {"calls_completed"} ELSE {})
 Aborted == /\ Live("call_aborted") /\ UNCHANGED stats
